@@ -35,6 +35,10 @@ CLAIMS = {
          "a decision on uninitialised memory would show only as a functional failure. Schedules are not explored."),
  "C09": ("5 (C09)", "emit() gives the same bytes/verdict/CRC wherever up to two output-buffer boundaries fall; xwrite() with fd -1 (-t) counts but writes nothing; parse() and the delta stage are resumable at every suspension point (inductive steps from arbitrary suspended states).",
          "retrieve()'s other suspension points (bitmap, selectors, prefix codes), attach/detach across input blocks and do_emit() are not covered; schedules only through the assumption C12."),
+ "C10": ("5 (C10)", "Step properties over the real expand.c code with a scan() stub that may report a candidate at ANY bit position: a candidate at or before the parser's position creates nothing; a candidate ahead becomes one speculative job recorded under its bit position; "
+         "when the parser finds a block it discards every record it has passed (finished ones released, unfinished ones marked not legitimate), confirms the record at exactly its own bit position and otherwise starts its own retrieve job; do_reorder() drops a block found before the expected position and "
+         "hands a block to the writer only at the position the parser queued; detach() positions identify absolute bit positions; plus the scanner/parser unit lemmas (C14, parse steps).",
+         "Step-wise, not a whole-run exploration: do_retrieve()'s legitimacy bookkeeping and the interplay of several running tasks are NOT covered; 'fails exactly when the sequential decoding fails' is covered only through C05's steps. Codec calls are stubs; candidates on record <= 1 (quick) / 3 (thorough)."),
  "C11": ("5 (C11)", "Rely/guarantee steps over the real compression tasks (collect, transmit, reorder, write-complete, input-available): from any state satisfying the monitor invariant (capacities, conservation of work units / output slots / input blocks) each task re-establishes it at every lock release; "
          "termination guard implies all queues empty and all slots returned; real heap helpers keep heap order; writer receives blocks in stream order.",
          "Compression only; the decompression scheduler (expand.c) is NOT covered. Deadlock-freedom/termination is not proved (only the invariant and the termination guard). Assumes C12. Worker count 1..3."),
@@ -60,7 +64,6 @@ CLAIMS = {
 
 NOT_APPLICABLE = {
  "C12": "needs an engine with a thread/memory model: CBMC's concurrency mode rejects this code ('pointer handling for concurrency is unsound'), no other engine is installed; C12 is the stated assumption of the scheduler checks (DESIGN.md 6)",
- "C10": "not claimed at this commit: needs the expand.c scheduler harness (speculative candidates); only unit-level lemmas (scanner, parser, heap) exist (DESIGN.md 5 C10)",
  "C20": "attempted and out of reach with what is installed: the assign_codes()/package_merge() optimality query (harness/h_prefix.c, scaled MAX_CODE_LENGTH 3..4, alphabet 3..5) ran out of 12 GB / 450 s on every rung incl. the smallest; no smaller meaningful bound exists (DESIGN.md 9.4)",
 }
 
